@@ -43,6 +43,18 @@ def step (d : DSt) (ws : List String) : DSt × String :=
        | none => (d, "none")
        | some tr => (d, "torn " ++ " ".intercalate (tr.map showLabel)))
     | _, _ => (d, "bad-op")
+  | ["wrap", kmax], _ =>
+    -- a read overlapped by K complete writes: the sequence counter has advanced by 2K modulo its width; with a counter of
+    -- the width found in the source, is there a K ≤ kmax after which the final test of `try_read` accepts?
+    match kmax.toNat? with
+    | some kmax =>
+      let bits := NexoVerif.Extracted.syncCellSeqBits
+      let hit := (List.range kmax).find? fun k =>
+        bits != 0 && NexoVerif.Extracted.tryReadAccept 0 ((2 * (k + 1)) % 2 ^ bits) && !NexoVerif.Extracted.tryReadEarlyReject 0
+      (d, match hit with
+          | some k => s!"torn: a read that loaded seconds before and nanoseconds after {k + 1} complete writes is accepted (the {bits}-bit sequence counter is back to its value)"
+          | none => "none")
+    | none => (d, "bad-op")
   | ["stress", _, _], _ => (d, "ok")
   | _, _ => (d, "bad-op")
 
